@@ -23,7 +23,7 @@ ASSUMPTIONS = [
     "exact containment by cube cover (self-tested against brute force)",
 ]
 REQUIRED = ["answered_true", "answered_false", "group_involved_true", "empty_port_expr_pair",
-            "nc_involved_true", "acl_level_true", "standard_pair", "switched_pair"]
+            "nc_involved_true", "acl_level_true", "standard_pair", "switched_pair", "mutated_pair"]
 GROUPS = True
 
 
@@ -56,10 +56,95 @@ def units(tier, seed):
 SWITCHES = [dict(protocol_nr=True), dict(port_nr=True), dict(protocol_nr=True, port_nr=True)]
 
 
+MUT_BASES = [("permit tcp object-group G any range 20 80", {"src": ["10.0.0.0 0.255.255.255"]}),
+             ("permit tcp host 10.0.0.1 any eq 80 443", {}),
+             ("permit udp 10.0.0.0 0.0.1.3 gt 1000 object-group H", {"dst": ["host 10.0.0.9", "10.2.0.0 0.0.255.255"]})]
+MUTATIONS = [
+    [("srcaddr.line", "host 10.0.0.1")], [("srcaddr.prefix", "10.0.0.0/30")],
+    [("srcaddr.items", ["host 10.0.0.5"])], [("srcaddr.items", ["host 10.0.0.5"]), ("srcaddr.line", "any")],
+    [("dstaddr.line", "10.2.3.0 0.0.0.255")], [("dstaddr.items", ["10.2.3.0 0.0.0.255"])],
+    [("dstport.ports", [20, 21, 80])], [("dstport.sport", "20-21,80")], [("dstport.items", [443])],
+    [("dstport.line", "gt 1000")], [("dstport.line", "")], [("srcport.line", "eq 5 6")],
+    [("srcport.ports", [5, 6, 7])],
+    [("option.line", "ack")], [("option.line", "log")], [("sequence", 7)],
+    [("line", "permit ip any any")], [("line", "deny tcp any any eq 80")],
+    [("srcaddr.line", "host 10.0.0.1"), ("dstport.ports", [80])],
+]
+MUT_PARTNERS = ["permit tcp any any", "permit ip any any", "permit tcp 10.0.0.0 0.255.255.255 any",
+                "permit tcp host 10.0.0.1 any eq 80", "permit tcp host 10.0.0.2 any range 20 80",
+                "permit tcp any any range 20 80", "permit tcp any any eq 20 21 80", "permit tcp any any eq 443",
+                "permit tcp host 10.0.0.5 any gt 1000", "permit tcp any any ack",
+                "permit udp any any", "permit udp 10.0.0.0 0.0.0.3 gt 1000 10.2.3.0 0.0.0.255",
+                "permit udp any eq 5 6 any", "deny tcp any any eq 80", "permit udp host 10.0.0.1 gt 2000 host 10.0.0.9"]
+
+
+def _mutate(bi, mi):
+    """A real Ace modified AFTER construction through the setters of its field objects; returns
+    (ace, description) where the description is what the object now renders (+ current members)."""
+    from cisco_acl import Ace
+
+    text, members = MUT_BASES[bi]
+    ace = Ace(text, platform="ios")
+    for side, lines in members.items():
+        getattr(ace, side + "addr").items = list(lines)
+    for path, val in MUTATIONS[mi]:
+        obj = ace
+        *heads, last = path.split(".")
+        for h in heads:
+            obj = getattr(obj, h)
+        if type(obj).__name__ == "Port" and not obj.protocol:
+            # a Port born from an empty expression carries no protocol and never renders (a quirk
+            # pinned by the repository's tests, see C08): giving it ports later is out of domain
+            raise ValueError("empty port expression")
+        setattr(obj, last, list(val) if isinstance(val, list) else val)
+    mem = {}
+    for side in ("src", "dst"):
+        adr = getattr(ace, side + "addr")
+        if adr.addrgroup:
+            mem[side] = [m.line for m in adr.items]
+    return ace, ace.line, mem
+
+
+def _mutated(bi, ctx, exact_if_plain):
+    """The answer must follow what the entry IS NOW (its rendered text and current members)."""
+    from cisco_acl import Ace
+
+    for mi in range(len(MUTATIONS)):
+        try:
+            _a, text, mem = _mutate(bi, mi)
+        except (ValueError, TypeError):
+            ctx.out("mutation_refused")
+            continue
+        for pi, ptext in enumerate(MUT_PARTNERS):
+            for role in ("top", "bottom"):
+                ace, text, mem = _mutate(bi, mi)  # fresh objects for every pair
+                partner = Ace(ptext, platform="ios")
+                if role == "top":
+                    desc = dict(platform="ios", top=text, bottom=ptext, top_members=mem, bottom_members={})
+                    top, bot = ace, partner
+                else:
+                    desc = dict(platform="ios", top=ptext, bottom=text, top_members={}, bottom_members=mem)
+                    top, bot = partner, ace
+                try:
+                    rt, rb = rules_from_description(desc)
+                except Exception:  # noqa - the mutation list can produce a state no Cisco text
+                    # describes (a tcp flag on a udp entry): outside the property's domain
+                    ctx.out("mutation_outside_grammar")
+                    break
+                plain = not mem and rt.sport and rt.dport and rb.sport and rb.dport
+                check_pair(top, bot, rt, rb,
+                           lambda: dict(kind="mutated", base=bi, mutation=mi, partner=pi, role=role,
+                                        steps=[list(map(str, m)) for m in MUTATIONS[mi]], **desc),
+                           ctx, exact=bool(exact_if_plain and plain))
+                ctx.out("mutated_pair")
+    ctx.sample("mutated", dict(base=MUT_BASES[bi][0]))
+
+
 def extra_units():
     """Units shared with C11: standard (source-only) entries, and the pair space of <= 1 deviation
     (+ protocol x protocol) with the numeric switches on."""
     out = [dict(kind="standard", pos=[], chunk=c) for c in range(8)]
+    out += [dict(kind="mutated", pos=[], base=b) for b in range(len(MUT_BASES))]
     for plat in ("ios", "nxos"):
         for bi in range(2):
             for posset in P.position_sets(1):
@@ -71,6 +156,9 @@ def extra_units():
 def run_extra(unit, ctx, groups, exact, accept=lambda top, bot: True):
     if unit["kind"] == "standard":
         _standard(unit["chunk"], ctx, exact)
+        return True
+    if unit["kind"] == "mutated":
+        _mutated(unit["base"], ctx, exact)
         return True
     if unit["kind"] == "switched":
         plat = unit["platform"]
@@ -198,6 +286,9 @@ def _acl_level(platform, ctx):
 
 
 def replay(case, ctx):
+    if case.get("kind") == "mutated":
+        _mutated(case["base"], ctx, case.get("exact", False))
+        return
     if case.get("kind") == "acl_level":
         _acl_level(case["platform"], ctx)
         return
@@ -236,6 +327,13 @@ def _nc(rule):
     return any(w & (w + 1) for cubes in (rule.src, rule.dst) for _, w in cubes)
 
 
+def _case(describe, **extra):
+    d = dict(describe())
+    d.setdefault("kind", "pair")
+    d.update(extra)
+    return d
+
+
 def check_pair(top, bot, rt, rb, describe, ctx, exact):
     """Evaluate one ordered pair under all skip arguments.
 
@@ -251,14 +349,14 @@ def check_pair(top, bot, rt, rb, describe, ctx, exact):
             ans = "refused"
             ctx.out("refused")
         except Exception as ex:  # noqa
-            ctx.viol("Ace.shadow_of:unexpected_exception", dict(kind="pair", skip=skip, **describe()),
+            ctx.viol("Ace.shadow_of:unexpected_exception", _case(describe, skip=skip),
                      repr(ex), "bool or documented error")
             return
         answers.append(ans)
         if ans is True and not covered:
             why = "different action" if rb.action != rt.action else "bottom not contained in top"
             ctx.viol(f"Ace.shadow_of:unsound:{_which_field(rt, rb)}",
-                     dict(kind="pair", skip=skip, **describe()), True, f"False ({why})",
+                     _case(describe, skip=skip), True, f"False ({why})",
                      kf=_kf_unsound(rt, rb))
     # monotonicity: adding skip options can only turn True into False
     none, ag, nc, both1, both2 = answers
@@ -266,12 +364,12 @@ def check_pair(top, bot, rt, rb, describe, ctx, exact):
                              (ag, both1, "addrgroup+nc"), (nc, both1, "nc+addrgroup"),
                              (ag, both2, "addrgroup+nc(rev)"), (nc, both2, "nc+addrgroup(rev)")):
         if big is True and small is False:
-            ctx.viol("Ace.shadow_of:skip_not_monotone", dict(kind="pair", **describe()),
+            ctx.viol("Ace.shadow_of:skip_not_monotone", _case(describe),
                      dict(zip(map(str, P.SKIPS), answers)),
                      f"adding skip options ({name}) must not turn False into True")
             break
     if both1 != both2:
-        ctx.viol("Ace.shadow_of:skip_order_matters", dict(kind="pair", **describe()),
+        ctx.viol("Ace.shadow_of:skip_order_matters", _case(describe),
                  dict(zip(map(str, P.SKIPS), answers)), "same answer for both orders")
     if exact:
         nc_inv = _nc(rt) or _nc(rb)
@@ -279,7 +377,7 @@ def check_pair(top, bot, rt, rb, describe, ctx, exact):
             want = covered and not (skip and "nc_wildcard" in skip and nc_inv)
             if ans != want:
                 ctx.viol("Ace.shadow_of:not_exact" + ("" if want else ":false_positive"),
-                         dict(kind="pair", exact=True, skip=skip, **describe()), ans, want)
+                         _case(describe, exact=True, skip=skip), ans, want)
                 break
     if True in answers:
         d = describe()
